@@ -377,7 +377,62 @@ theorem default_batch_matches_source : effBatch 0 = Ebu.Generated.Consts.replayD
   decide
 """),
 }
-for extras in (EXTRAS, EXTRAS2):
+
+# obligations on the control flow of the CURRENT source (Ebu/Generated/Flow.lean, regenerated on every run by
+# go/extract/pipeline.go; predicates in Ebu/Spec/Flow.lean): each names one assumption the model of that property makes
+FLOWHDR = "/-! ### obligations on the control flow of the CURRENT source (`Ebu/Generated/Flow.lean`, regenerated from /repo on every run) -/\n\n"
+def fl(name, pred, doc):
+    return "/-- OBLIGATION: %s -/\ntheorem %s : Ebu.Flow.%s = true := by decide +kernel\n" % (doc, name, pred)
+EXTRAS3 = {
+ "C01": ("Ebu.Spec.Flow", FLOWHDR +
+    fl("flow_snapshot_then_dispatch", "publishPrelude", "`PublishContext` copies the registrations of the type under the shard's read lock, releases it, and only then walks the copy (M1's `publish` takes its snapshot before any handler runs)") + "\n" +
+    fl("flow_dispatch_order", "dispatchOrder", "one snapshot entry is handled in the order filter, once claim, dispatch – inside the loop over the snapshot") + "\n" +
+    fl("flow_retire_by_identity", "retireByIdentity", "fired once handlers are removed after the loop, under the write lock, by pointer identity of the registration, one entry each")),
+ "C02": ("Ebu.Spec.Flow", FLOWHDR +
+    fl("flow_snapshot_under_read_lock", "publishPrelude", "the snapshot step of M2 is one read-locked copy, released before dispatch") + "\n" +
+    fl("flow_retire_by_identity", "retireByIdentity", "the retirement step of M2 removes exactly the claimed registrations (pointer identity) inside one write-locked section after the loop")),
+ "C04": ("Ebu.Spec.Flow", FLOWHDR +
+    fl("flow_filter_and_ctx_before_claim", "ctxCheckBeforeClaim", "between the filter and the once claim the loop checks the context and skips the entry with `continue` (a rejected or cancelled delivery never reaches the compare-and-swap)") + "\n" +
+    fl("flow_claim_order", "dispatchOrder", "filter, then compare-and-swap, then the note for retirement, then dispatch; one compare-and-swap per entry") + "\n" +
+    fl("flow_retire_by_identity", "retireByIdentity", "a claimed once handler is retired by pointer identity after the loop")),
+ "C05": ("Ebu.Spec.Flow", FLOWHDR +
+    fl("flow_handler_bracket", "handlerBracket", "the recovering `defer` is registered before anything else in `callHandlerWithContext`; inside it `recover`, then the panic handler (only if something was recovered, once), then the handler-complete callback; the Sequential mutex is unlocked by a `defer` registered right after the lock; no early return") + "\n" +
+    fl("flow_async_cleanup_deferred", "inflightBracketsGoroutine", "an async goroutine gives its in-flight count back by a `defer` registered first (a panicking handler cannot leak it: `Wait` still returns)") + "\n" +
+    fl("flow_turn_release_deferred", "ticketDiscipline", "the turn of an Async+Sequential invocation is released by a `defer` registered right after it was obtained")),
+ "C06": ("Ebu.Spec.Flow", FLOWHDR +
+    fl("flow_inflight_brackets_goroutine", "inflightBracketsGoroutine", "M2's `inflight + 1` happens in the publisher before the `go` statement (outside the goroutine, once per async dispatch) and `inflight - 1` is deferred first thing inside the goroutine") + "\n" +
+    fl("flow_shutdown_shape", "shutdownShape", "`Shutdown` waits in a goroutine that then closes `done`; the store is closed only in the `<-done` branch – never in the `<-ctx.Done()` branch, never in the goroutine")),
+ "C07": ("Ebu.Spec.Flow", FLOWHDR +
+    fl("flow_ticket_discipline", "ticketDiscipline", "the ticket is taken by the publisher (in dispatch order, before `go`), the turn is awaited inside the goroutine before the handler call, and released by a `defer` registered right after") + "\n" +
+    fl("flow_handler_mutex", "handlerBracket", "the Sequential mutex is taken in `callHandlerWithContext` and unlocked by a `defer` registered right after the lock")),
+ "C08": ("Ebu.Spec.Flow", FLOWHDR +
+    fl("flow_hooks_before_dispatch", "publishPrelude", "publish-start callback, before-hooks (each once, outside every loop), persistence, snapshot – in this order, before the dispatch loop") + "\n" +
+    fl("flow_hooks_after_dispatch", "publishEpilogue", "after-hooks and the publish-complete callback come after the loop and the retirement, each once, outside every loop, and no path of `PublishContext` returns before them") + "\n" +
+    fl("flow_calls_guarded_by_ctx", "callsGuardedByCtx", "each of the two handler call sites sits in the `default` branch of a `select` on `ctx.Done()` (synchronous: `continue`; async goroutine: `return`)")),
+ "C09": ("Ebu.Spec.Flow", FLOWHDR +
+    fl("flow_persist_before_snapshot", "publishPrelude", "`persistEvent` is called exactly once per publish, unconditionally, after the before-hooks and before the snapshot is taken") + "\n" +
+    fl("flow_persist_shape", "persistShape", "`persistEvent`: marshal, then ONE append (in no loop) inside the `storeMu` critical section together with the update of `lastOffset` (only on success)")),
+ "C11": ("Ebu.Spec.Flow", FLOWHDR +
+    fl("flow_replay_shape", "replayShape", "`Replay` never appends, publishes or subscribes; the paged loop stops on an empty page, has the stuck-offset guard, and inspects every callback result") + "\n" +
+    fl("flow_sqlite_stream_checks_rows_err", "sqliteShape", "the SQLite batched stream inspects `rows.Err()` after the row loop and yields it")),
+ "C12": ("Ebu.Spec.Flow", FLOWHDR +
+    fl("flow_resume_shape", "resumeShape", "`SubscribeWithReplay`: LoadOffset, then Replay, then – only after it has finished – the live registration; in the replay callback: upcast, select by name, decode, handler, THEN SaveOffset") + "\n" +
+    fl("flow_resume_live_shape", "resumeLiveShape", "the live handler: handler first, then inside one `saveMu` critical section read `bus.lastOffset` under `storeMu` and save it, unless nothing was persisted yet")),
+ "C13": ("Ebu.Spec.Flow", FLOWHDR +
+    fl("flow_persist_shape", "persistShape", "`persistEvent` reports a marshal failure and returns before any append; makes ONE append attempt in no loop (no retry); writes `lastOffset` only under `saveErr == nil`; reports an append failure once, after the lock is released; cancels the timeout context by `defer`")),
+ "C14": ("Ebu.Spec.Flow", FLOWHDR +
+    fl("flow_sqlite_append_shape", "sqliteShape", "SQLite `Append` makes one Exec and takes the offset from that Exec's result")),
+ "C18": ("Ebu.Spec.Flow", FLOWHDR +
+    fl("flow_materializer_shape", "materializerShape", "`Materializer.Apply` writes `lastOffset` only after a control message or an error-free change was applied; a reset clears every collection under the lock and calls `onReset` afterwards; an unknown entity type is an error only in strict mode")),
+ "C19": ("Ebu.Spec.Flow", FLOWHDR +
+    fl("flow_decode_before_mutation", "materializerShape", "`Apply` decodes first; an error of `applyChange` returns before `lastOffset` is written; a collection decodes the value before it touches its store")),
+ "C20": ("Ebu.Spec.Flow", FLOWHDR +
+    fl("flow_publish_callbacks", "publishPrelude", "`OnPublishStart` comes first (its context is the one hooks, persistence and handlers get)") + "\n" +
+    fl("flow_publish_complete_last", "publishEpilogue", "`OnPublishComplete` is the last thing `PublishContext` does, on every path") + "\n" +
+    fl("flow_handler_callbacks", "handlerBracket", "`OnHandlerStart` once before the call, `OnHandlerComplete` once inside the recovering `defer`, whether or not something was recovered") + "\n" +
+    fl("flow_persist_callbacks", "persistShape", "`OnPersistStart` before and `OnPersistComplete` after the one append, once each")),
+}
+for extras in (EXTRAS, EXTRAS2, EXTRAS3):
     for prop, (imp, text) in extras.items():
         if prop.endswith("-old"): continue
         if ONLY and prop not in ONLY: continue
